@@ -44,6 +44,12 @@ pub fn gen(rng: &mut Prng, plan: &mut Plan) {
     for _ in 0..n {
         let (v, neg) = special_value(rng);
         let route = rng.below(8) as i128;
+        if rng.chance(1, 60) {
+            // long byte strings (beyond any internal block size) of every residue mod 8
+            let len = *rng.pick(&[1025u64, 4097, 8190, 16_383, 16_385, 16_391, 20_003, 32_769, 40_005, 65_537]) + rng.below(9);
+            plan.steps.push(Step::new("big_bytes").i("len", len as i128).i("seed", rng.next_u32() as i128).i("kind", rng.below(8) as i128).i("neg", neg as i128));
+            continue;
+        }
         let s = match rng.below(10) {
             0..=2 => Step::new("export").l32("v", &v).i("neg", neg as i128).i("route", route),
             3..=5 => {
@@ -291,6 +297,53 @@ pub fn exec(plan: &Plan) -> RunResult {
                     res.nontrivial = true;
                     res.cover.insert(fnv(format!("rt|{kind}|{}|{}|{neg}|{route}", pad.min(3), m.0.len().min(16)).as_bytes()));
                 }
+            }
+            "big_bytes" => {
+                let len = s.us("len");
+                let mut st = s.u64("seed") | 1;
+                let mut b: Vec<u8> = (0..len).map(|_| (crate::prng::splitmix(&mut st) >> 24) as u8).collect();
+                if let Some(l) = b.last_mut() {
+                    *l = (*l & 0x7f) | 1; // non-negative in two's complement, top byte non-zero
+                }
+                let kind = s.int("kind");
+                let sg = s.int("neg") != 0;
+                let rev: Vec<u8> = b.iter().rev().copied().collect();
+                let model = RefNat::from_bytes_le(&b);
+                let names = ["BigUint::from_bytes_le", "BigUint::from_bytes_be", "BigInt::from_signed_bytes_le", "BigInt::from_signed_bytes_be", "BigInt::from_bytes_le", "BigInt::from_bytes_be", "BigUint::FromBytes", "BigInt::FromBytes"];
+                let api = names[(kind as usize).min(7)];
+                let r = catch(|| -> (RefInt, Option<String>, bool) {
+                    match kind {
+                        0 => { let x = BigUint::from_bytes_le(&b); (RefInt::new(false, denote_u(&x)), noncanonical_u(&x), x.to_bytes_le() == b && x.to_bytes_be() == rev) }
+                        1 => { let x = BigUint::from_bytes_be(&rev); (RefInt::new(false, denote_u(&x)), noncanonical_u(&x), x.to_bytes_be() == rev) }
+                        2 => { let x = BigInt::from_signed_bytes_le(&b); (denote_i(&x), noncanonical_i(&x), x.to_signed_bytes_le() == b) }
+                        3 => { let x = BigInt::from_signed_bytes_be(&rev); (denote_i(&x), noncanonical_i(&x), x.to_signed_bytes_be() == rev) }
+                        4 => { let x = BigInt::from_bytes_le(if sg { Sign::Minus } else { Sign::Plus }, &b); (denote_i(&x), noncanonical_i(&x), x.to_bytes_le().1 == b) }
+                        5 => { let x = BigInt::from_bytes_be(if sg { Sign::Minus } else { Sign::Plus }, &rev); (denote_i(&x), noncanonical_i(&x), x.to_bytes_be().1 == rev) }
+                        6 => { let x = <BigUint as num_traits::FromBytes>::from_be_bytes(&rev); (RefInt::new(false, denote_u(&x)), noncanonical_u(&x), num_traits::ToBytes::to_be_bytes(&x) == rev) }
+                        _ => { let x = <BigInt as num_traits::FromBytes>::from_le_bytes(&b); (denote_i(&x), noncanonical_i(&x), num_traits::ToBytes::to_le_bytes(&x) == b) }
+                    }
+                });
+                let (got, nc, back) = match r {
+                    Ok(t) => t,
+                    Err(e) => {
+                        res.violate("C14", "unexpected-panic", api, si, format!("{e}: {len} bytes"));
+                        return res;
+                    }
+                };
+                let want = RefInt::new(sg && (kind == 4 || kind == 5), model);
+                if let Some(nc) = nc {
+                    bad!("canonical", api, "{len} bytes: {nc}");
+                }
+                if got != want {
+                    bad!("import-model", api, "a {len}-byte string (seed {}) imports as a {}-bit value, the bytes denote a {}-bit value (values differ)", s.u64("seed"), got.mag.bits(), want.mag.bits());
+                }
+                if !back {
+                    bad!("export-model", api, "a {len}-byte string does not export back to the same bytes");
+                }
+                dg.u64(got.mag.bits());
+                res.nontrivial = true;
+                res.reach("long_byte_strings");
+                res.cover.insert(fnv(format!("big|{kind}|{}|{}", len % 8, len > 16384).as_bytes()));
             }
             "import_bytes" => {
                 let b = s.list8("b");
